@@ -94,6 +94,8 @@ def _untuple(v):
     """{'__tuple__': [...]} -> tuple, recursively (JSON has no tuples)."""
     if isinstance(v, dict) and '__tuple__' in v:
         return tuple(_untuple(x) for x in v['__tuple__'])
+    if isinstance(v, dict) and '__quantity__' in v:
+        return _u().Quantity(v['__quantity__'][0], v['__quantity__'][1])
     if isinstance(v, list):
         return [_untuple(x) for x in v]
     return v
